@@ -11,6 +11,7 @@ import (
 type RecMetrics struct {
 	mu   sync.Mutex
 	vals map[string]int64 // "counter|label|label"
+	names []string
 }
 
 func NewRecMetrics() *RecMetrics { return &RecMetrics{vals: map[string]int64{}} }
@@ -21,6 +22,9 @@ type recCounter struct {
 }
 
 func (f *RecMetrics) NewCounter(name, help string, labelNames ...string) monitoring.Counter {
+	f.mu.Lock()
+	f.names = append(f.names, name)
+	f.mu.Unlock()
 	return &recCounter{f: f, name: name}
 }
 
@@ -58,4 +62,19 @@ func Delta(before, after map[string]int64) map[string]int64 {
 		}
 	}
 	return d
+}
+
+// ForLabels returns every counter value whose label list is exactly one of the given labels.
+func (f *RecMetrics) ForLabels(labels []string) map[string]int64 {
+	f.mu.Lock()
+	defer f.mu.Unlock()
+	o := map[string]int64{}
+	for _, n := range f.names {
+		for _, l := range labels {
+			if v, ok := f.vals[n+"|"+l]; ok {
+				o[n+"|"+l] = v
+			}
+		}
+	}
+	return o
 }
